@@ -155,3 +155,13 @@ def compile_errors(d):
 
 def unsafe_tokens(d):
     return [t[2] for _, tr, _ in d.arms for t in tr if t[1] == "unsafe"]
+
+
+def invoked_macros(d):
+    """names of macros invoked in the transcribers of d (`name!` or `$crate::path::name!`)"""
+    out = set()
+    for _, tr, _ in d.arms:
+        for i in range(len(tr) - 1):
+            if tr[i][0] == "ident" and tr[i + 1][1] == "!":
+                out.add(tr[i][1])
+    return out
